@@ -407,6 +407,14 @@ def run(R):
         nf = 0
         for ag in mirlib.aggregates(cc, 'client::grpc::GrpcConfig'):
             nf += copy_field_agreement(R, 'C06.R4', 'cli:clone', cc, ag)
+        if nf == 0:
+            # .. or the configuration is cloned as a whole: self.config.clone() with Clone derived (or written) for GrpcConfig
+            whole = [(bb, t) for bb, t in cc.calls(name='clone') if field_names(cc.origin(t['args'][0]))[-1:] == ['config']]
+            gcl = [b_ for b_ in tonic.bodies if b_.kind == 'fn' and re.search(r'<client::grpc::GrpcConfig as std::clone::Clone>::clone$', b_.path)]
+            if len(whole) == 1 and len(gcl) == 1:
+                R.saw(gcl[0])
+                for ag in mirlib.aggregates(gcl[0], 'client::grpc::GrpcConfig'):
+                    nf += copy_field_agreement(R, 'C06.R4', 'cli:clone', gcl[0], ag)
         R.floor('C06.R4', 'client Clone fields', nf, 5)
         # generated servers: Clone and the per-call Grpc configuration use the same-named fields
         import gen
